@@ -29,7 +29,7 @@ def entry_ends(doc):
     return [m.end() for m in re.finditer(r"</item>|</entry>", doc)]
 
 
-DAMAGE = ["truncate", "unclosed", "mismatch", "stray-lt", "stray-amp", "undefined-entity", "garbage", "entity-between", "nul", "bad-attr"]
+DAMAGE = ["truncate", "unclosed", "mismatch", "stray-lt", "stray-amp", "undefined-entity", "garbage", "entity-between", "nul", "bad-attr", "stray-entry-end"]
 
 
 def damage(rng, doc, pos, kind):
@@ -39,6 +39,10 @@ def damage(rng, doc, pos, kind):
         return doc[:cut]
     if kind == "garbage":
         return doc + rng.choice(["\x01\x02garbage", "<<<>>>", "trailing text &", "</rss></rss>", "<item><title>ghost"])
+    if kind == "stray-entry-end":
+        # an unmatched entry end tag directly after the k-th complete entry (whatever follows -- metadata, further entries -- is parsed with it in effect)
+        m = re.search(r"</(item|entry)>$", doc[:pos])
+        return doc[:pos] + (m.group(0) if m else "</item>") + doc[pos:]
     # insert something at a random position at or after pos
     ins = pos + (rng.randrange(0, len(tail)) if tail and rng.random() < 0.7 else 0)
     # keep insertion outside of tags for the text-level damages
@@ -53,6 +57,7 @@ def damage(rng, doc, pos, kind):
 
 
 FORMS = ["bytes", "bytesio", "str", "stringio"]
+CJK = ["中文标题", "日本語のテキスト", "한국어 텍스트", "plain", "über naïve café", "标题 two", "x"]
 
 
 def deliver(doc, form):
@@ -155,7 +160,16 @@ def search(ctx, focus=None):
     dist = {}
     for _ in range(ctx.n(140, 3000)):
         big = rng.random() < 0.25
-        doc = feedgen.vocab_doc(rng, nentries=rng.randint(2, 6) if not big else rng.randint(3, 5), big=big)
+        r = rng.random()
+        if r < 0.2:
+            # non-ASCII text and padding: character offsets and byte offsets drift apart (documents beyond the 8192-character / 64 KiB prefixes, and just within them)
+            big = True
+            doc = feedgen.vocab_doc(rng, fmt=rng.choice(["rss20", "atom10"]), nentries=rng.randint(3, 7), big=True, pad_unit=rng.choice(["填充文字 ", "パディング ", "remplissage é "]),
+                                    pad_reps=rng.choice([300, 700, 1500, 4000]), texts=CJK)
+        elif r < 0.4:
+            doc = feedgen.vocab_doc(rng, fmt=rng.choice(["rss20", "atom10"]), nentries=rng.randint(2, 6), meta_between=True)
+        else:
+            doc = feedgen.vocab_doc(rng, nentries=rng.randint(2, 6) if not big else rng.randint(3, 5), big=big)
         ends = entry_ends(doc)
         for k, pos in enumerate(ends, 1):
             if rng.random() < (0.4 if ctx.thorough else 0.75) and len(ends) > 2:
@@ -169,7 +183,8 @@ def search(ctx, focus=None):
                 failures += check_case(doc, dm, k, kind, form)
     return {"evaluations": n, "distinct_nontrivial": len(distinct), "failures": failures, "distribution": dist,
             "rule": "well-formed reference-free feeds (RSS 2.0 / RSS 1.0 / Atom 1.0 over core + dc/dcterms/itunes/media/georss/content/slash/wfw/unknown extension "
-                    "elements, 2-6 entries, a quarter of them padded beyond the 8 KiB / 64 KiB prefix sizes) x every k x damage kinds {truncate, unclosed tag, mismatched "
+                    "elements, 2-6 entries, a quarter of them padded beyond the 8 KiB / 64 KiB prefix sizes; a fifth with CJK / accented text and padding so that character and byte offsets "
+                    "drift apart; a fifth with feed-level metadata between and after the entries) x every k x damage kinds {an unmatched entry end tag directly after the k-th entry, truncate, unclosed tag, mismatched "
                     "end tag, stray <, stray &, undefined entity in text, entity reference directly after the k-th end tag, garbage appended, NUL, duplicate attribute} "
                     "at random positions after the k-th entry x delivery {bytes, BytesIO, str, StringIO}; oracle: bozo set (when expat rejects the damaged document) "
                     "and entries[:k] equal to the loose-mode result of the undamaged document; distinct = distinct (damaged document, delivery form)",
